@@ -37,6 +37,16 @@ func main() {
 			usage()
 		}
 		os.Exit(core.ReplayMain(os.Args[2], os.Args[3]))
+	case "dump": // development aid: run in-process, print every failing signature with its witness
+		ck := core.Lookup(os.Args[2])
+		c := core.NewCtx(os.Args[3], 0, 1, 0, 0)
+		ck.Run(c)
+		for sig, f := range c.Failures() {
+			fmt.Printf("%s\t%d\t%s\t%s\t%s\n", sig, f.Count, f.Case, f.Exp, f.Obs)
+		}
+		for _, h := range c.Report().HarnessE {
+			fmt.Println("HARNESS", h)
+		}
 	case "list":
 		for _, id := range core.IDs() {
 			fmt.Println(id)
